@@ -26,6 +26,9 @@ def scenarios():
         out.append(dict(base, name=tag + "/cold/batch-vs-leaf", warm=[], threads=[[["th", 1]], [["tf", 2]]]))
         out.append(dict(base, name=tag + "/cold/exception-same", warm=[], threads=[[["tf", 13]], [["tf", 13]]]))
         out.append(dict(base, name=tag + "/cold/same-call-two-spellings", warm=[], threads=[[["tf", 1]], [["tf", 1, "partial"]]]))
+        if backend == "fs" and not budget:
+            # the second caller has configured memento again: another backend object on the same store directory
+            out.append(dict(base, name=tag + "/cold/same-two-backend-objects", warm=[], own_backend=True, threads=[[["tf", 1]], [["tf", 1]]]))
         if budget:
             # a result larger than the whole cache (tf(5): 340 bytes > 300): what the cache keeps for it while it is being stored
             out.append(dict(base, name=tag + "/cold/oversize-same", warm=[], threads=[[["tf", 5]], [["tf", 5]]]))
@@ -138,7 +141,7 @@ def run(prop, tier):
         jobs = []
         for s, p in zip(scs, probe):
             n = p["steps"]
-            stride = 9 if quick else 1
+            stride = (3 if s["backend"] == "memory" else 9) if quick else 1
             scheds = bound1_schedules(len(s["threads"]), n, stride)
             if quick:
                 scheds = scheds[:: 1]
